@@ -27,6 +27,7 @@ type Solver struct {
 	depth   int
 	Slow    func(d time.Duration, res string)
 	RawModel func(string)
+	LastModel string
 }
 
 func NewSolver(bin string, args ...string) (*Solver, error) {
@@ -247,14 +248,20 @@ func (s *Solver) CheckOneShot(asserts []*Term, wantModel bool, timeoutMs int) (s
 	switch res {
 	case "sat":
 		s.Sat++
-		if wantModel && s.RawModel != nil {
+		if wantModel {
 			names := make([]string, 0, len(s.P.vars))
 			for n := range s.P.vars {
 				names = append(names, n)
 			}
 			sort.Strings(names)
 			s.send("(get-value (" + strings.Join(names, " ") + "))\n")
-			s.RawModel(s.readSexp())
+			s.LastModel = s.readSexp()
+			if len(s.LastModel) > 4000 {
+				s.LastModel = s.LastModel[:4000]
+			}
+			if s.RawModel != nil {
+				s.RawModel(s.LastModel)
+			}
 		}
 	case "unsat":
 		s.Unsat++
@@ -262,4 +269,80 @@ func (s *Solver) CheckOneShot(asserts []*Term, wantModel bool, timeoutMs int) (s
 		s.Unknown++
 	}
 	return res, nil
+}
+
+// CheckValues decides the current assertion stack and, when sat, returns the model of all
+// declared variables plus the values of the given terms (as int64, sign-agnostic raw bits).
+func (s *Solver) CheckValues(terms []*Term, timeoutMs int) (string, map[string]uint64, []int64) {
+	t0 := time.Now()
+	defer func() { s.Time += time.Since(t0) }()
+	s.Queries++
+	s.Push()
+	defer s.Pop()
+	refs := make([]string, len(terms))
+	var sb strings.Builder
+	for i, t := range terms {
+		refs[i] = s.P.Ref(t, &sb)
+	}
+	s.send(sb.String())
+	if timeoutMs > 0 {
+		s.send(fmt.Sprintf("(set-option :timeout %d)\n", timeoutMs))
+	}
+	s.send("(check-sat)\n")
+	res := s.readLine()
+	for strings.HasPrefix(res, "(error") || res == "" || res == "success" {
+		if strings.HasPrefix(res, "(error") {
+			s.Unknown++
+			return "unknown:" + res, nil, nil
+		}
+		res = s.readLine()
+	}
+	switch res {
+	case "sat":
+		s.Sat++
+	case "unsat":
+		s.Unsat++
+		return res, nil, nil
+	default:
+		s.Unknown++
+		return res, nil, nil
+	}
+	model := map[string]uint64{}
+	if len(s.P.vars) > 0 {
+		names := make([]string, 0, len(s.P.vars))
+		for n := range s.P.vars {
+			names = append(names, n)
+		}
+		sort.Strings(names)
+		s.send("(get-value (" + strings.Join(names, " ") + "))\n")
+		model = parseModel(s.readSexp())
+	}
+	vals := make([]int64, len(terms))
+	for i, r := range refs {
+		switch {
+		case r == "true":
+			vals[i] = 1
+		case r == "false":
+			vals[i] = 0
+		case strings.HasPrefix(r, "#x"):
+			var v uint64
+			fmt.Sscanf(r[2:], "%x", &v)
+			vals[i] = signExt(v, terms[i].Sort.Width)
+		case strings.HasPrefix(r, "#b"):
+			var v uint64
+			fmt.Sscanf(r[2:], "%b", &v)
+			vals[i] = signExt(v, terms[i].Sort.Width)
+		default:
+			s.send("(get-value (" + r + "))\n")
+			m := parseModel(s.readSexp())
+			for _, v := range m {
+				if terms[i].Sort.Kind == 'V' {
+					vals[i] = signExt(v, terms[i].Sort.Width)
+				} else {
+					vals[i] = int64(v)
+				}
+			}
+		}
+	}
+	return res, model, vals
 }
